@@ -1,6 +1,7 @@
 import PoaVerif.Model.Spec
 import PoaVerif.Lemmas.EndBlock
 import PoaVerif.Lemmas.RunRefine
+import PoaVerif.Lemmas.GenesisPre
 import PoaVerif.Witness.D1
 import PoaVerif.Witness.D6
 /-
@@ -77,6 +78,14 @@ theorem c02_partial_init (g : Genesis) (u : List (Nat × Int)) (s : App) (c : CS
     (hpre : Pre (App.genesisState g) [] = true) (h : App.initChain g = .ok (u, s))
     (hc : Comet.applyChangeSet [] u = .ok c) : Agree c s :=
   initChain_agree g u s c hpre h hc
+
+/-- **C02, the genesis set of every well-formed genesis** (no further hypothesis): InitChain succeeds, CometBFT accepts
+    the genesis update list, and the set it builds from the empty set is the chain's own — for any number of genesis
+    validators with distinct operators and keys, at least one unit each, within `MaxValidators` and CometBFT's maximum
+    total power -/
+theorem c02_genesis (g : Genesis) (h : g.wf = true) :
+    ∃ u s c, App.initChain g = .ok (u, s) ∧ Comet.applyChangeSet [] u = .ok c ∧ Agree c s :=
+  initChain_wf g h
 
 /-- non-vacuity: the first two blocks of the D1 witness history (an idle block, then SetPower 10 → 11 units of a
     genesis validator) lie inside `Pre`, as does its genesis -/
